@@ -50,6 +50,8 @@ func init() {
 			"\t\tif ioc.poller.Pending() <= 0 {\n\t\t\tbreak\n\t\t}\n\n\t\tif err := ioc.RunOne(); err != nil {", "C03-R4"},
 		mutant{"removing one direction programs the removed flag", "internal/poll_linux.go",
 			"\t\t*events ^= PollerReadEvent\n\t\tif *events != 0 {\n\t\t\treturn p.modify(slot.Fd, createEvent(*events, slot))", "\t\t*events ^= PollerReadEvent\n\t\tif *events != 0 {\n\t\t\treturn p.modify(slot.Fd, createEvent(PollerReadEvent, slot))", "C03-R2k"},
+		mutant{"IO.UnsetWrite removes the read interest", "io.go",
+			"func (ioc *IO) UnsetWrite(slot *internal.Slot) error {\n\treturn ioc.poller.DelWrite(slot)", "func (ioc *IO) UnsetWrite(slot *internal.Slot) error {\n\treturn ioc.poller.DelRead(slot)", "C03-R2w"},
 		mutant{"posted handler counted after it is published", "internal/poll_linux.go",
 			"\tp.posts = append(p.posts, handler)\n\tatomic.AddInt64(&p.pending, 1)\n\tp.lck.Unlock()\n", "\tp.posts = append(p.posts, handler)\n\tp.lck.Unlock()\n\tatomic.AddInt64(&p.pending, 1)\n", "C03-R6"},
 		mutant{"Pending read without atomic", "internal/poll_linux.go", "return atomic.LoadInt64(&p.pending)", "return p.pending", "C03-R5"},
@@ -414,6 +416,28 @@ func runC03(c *Ctx) {
 		if n == 0 {
 			c.bad(p.Method("internal", "poller", "setRW"), "kernel mask", p.Method("internal", "poller", "setRW").Pos(), "no epoll event is built any more (anchor moved)")
 		}
+	}
+
+	// the IO wrappers forward to the like-named poller operation (read is read, write is write)
+	c.rule("C03-R2w", "IO.SetRead/SetWrite/UnsetRead/UnsetWrite/UnsetReadWrite forward to the poller operation of the same direction", 5)
+	for _, pair := range [][2]string{{"SetRead", "SetRead"}, {"SetWrite", "SetWrite"}, {"UnsetRead", "DelRead"}, {"UnsetWrite", "DelWrite"}, {"UnsetReadWrite", "Del"}} {
+		fn := p.Method("sonic", "IO", pair[0])
+		want := p.IfaceMethod("internal", "Poller", pair[1])
+		n, good := 0, true
+		eachInstr(fn, func(in ssa.Instruction) {
+			call, ok := in.(ssa.CallInstruction)
+			if !ok || !call.Common().IsInvoke() {
+				return
+			}
+			if nt, ok := call.Common().Value.Type().(*types.Named); !ok || nt.Obj().Name() != "Poller" {
+				return
+			}
+			n++
+			if !sameFunc(call.Common().Method, want) {
+				good = false
+			}
+		})
+		c.check(good && n == 1, fn, "forwards", fn.Pos(), "forwards to Poller."+pair[1], "IO."+pair[0]+" does not forward to Poller."+pair[1]+" (exactly once): cancelling or closing removes the interest of the other direction, the parked operation stays registered and is resumed after its callback was already completed")
 	}
 
 	c.rule("C03-R3", "Del removes the read and the write interest on every path", 1)
